@@ -80,12 +80,12 @@ def ESC : Char := Char.ofNat 0x1b
 
 /-- One character to the console. -/
 def putc (minimal : Bool) (w : World) (c : Char) : World :=
-  if minimal && c == ESC then w else { w with out := w.out ++ [c] }
+  if minimal && c == ESC then w else { w with outRev := c :: w.outRev }
 
 def puts (minimal : Bool) (w : World) (cs : List Char) : World := cs.foldl (putc minimal) w
 
 /-- Raw text (not subject to `--minimal` filtering). -/
-def putRaw (w : World) (cs : List Char) : World := { w with out := w.out ++ cs }
+def putRaw (w : World) (cs : List Char) : World := { w with outRev := cs.reverse ++ w.outRev }
 
 /-- The character whose code is bits [7:0] of `v`. -/
 def lowChar (v : Word) : Char := Char.ofNat (v.toNat % 256)
